@@ -20,9 +20,14 @@ pub const PATHS: &[(&str, u8)] = &[
 const UNRELATED: &[&str] = &["README.txt", "firmware/kernel.gz.bak", "app8/update.spec", "app1/update.tar", "firmware/rootfs", "update.spec"];
 
 fn request(id: Option<u8>, off: Option<u32>, with_file: bool, with_tlv: bool) -> Vec<u8> {
+    request_sized(id, off, None, with_file, with_tlv)
+}
+
+/// ... optionally with the size object (1F00), which a request may carry and which changes nothing about what is asked for
+fn request_sized(id: Option<u8>, off: Option<u32>, size: Option<u32>, with_file: bool, with_tlv: bool) -> Vec<u8> {
     fp::RequestForData {
         tlv: if with_tlv {
-            Some(ft::WriteData { file: if with_file { Some(ft::File { file_id: id, file_offset: off, ..ft::File::default() }) } else { None } })
+            Some(ft::WriteData { file: if with_file { Some(ft::File { file_id: id, file_offset: off, file_size: size, ..ft::File::default() }) } else { None } })
         } else {
             None
         },
@@ -158,7 +163,11 @@ pub fn upload_run(args: &[String]) -> anyhow::Result<()> {
                 6 => request(Some(*id), Some(size), true, true),                       // at the end of the file
                 7 => request(Some(*id), Some(size.saturating_add(rng.range(1, 100000) as u32)), true, true), // beyond it
                 8 => request(Some(*id), Some(u32::MAX), true, true),
-                9 | 10 => request(Some(*id), Some(rng.below(size as u64 + 1) as u32), true, true), // anywhere, overlapping
+                9 => request(Some(*id), Some(rng.below(size as u64 + 1) as u32), true, true), // anywhere, overlapping
+                10 => {
+                    let sz = *rng.pick(&[0u32, 1, 16, block.saturating_sub(1), block, block.saturating_add(1), size, u32::MAX]);
+                    request_sized(Some(*id), Some(rng.below(size as u64 + 1) as u32), Some(sz), true, true)
+                }
                 _ => {
                     // sequential download
                     let o = seq_off.entry(*id).or_insert(0);
